@@ -443,7 +443,24 @@ pub fn round_case() -> BoxedStrategy<RoundCase> {
                 if q % 2 == 0 {
                     let x = d.time_ns_with_days();
                     let t = x - x.rem_euclid(q) + q / 2;
-                    let cand = balance_time(t, U::Hour);
+                    // three shapes of the same total: everything in hours and below, balanced up to days, or the
+                    // original day count kept with the rest in hours and below (a rounding that looks at the time
+                    // part alone sees another parity than one that looks at the exact total)
+                    let cand = match inc_idx % 3 {
+                        0 => balance_time(t, U::Hour),
+                        1 => balance_time(t, U::Day),
+                        _ => {
+                            let keep = d.f[3];
+                            let rest = t - keep * 86_400_000_000_000;
+                            if (rest < 0) != (t < 0) && rest != 0 && keep != 0 {
+                                balance_time(t, U::Day)
+                            } else {
+                                let mut c = balance_time(rest, U::Hour);
+                                c.f[3] = keep;
+                                c
+                            }
+                        }
+                    };
                     if cand.valid() && cand.to_f64s().iter().zip(cand.f.iter()).all(|(a, b)| *a as i128 == *b) {
                         d = cand;
                     }
